@@ -16,6 +16,7 @@ typedef struct { QubitInfo *data; size_t size; size_t cap; } vec_QubitInfo;
 /* storage has a fixed capacity (object-size bound NQMAX); growing beyond it is reported, not modelled */
 extern size_t g_rs_k;   /* ghost position used by the resize over-approximations */
 static inline int vec_int_back(vec_int *v) { bl_bounds(v->size > 0); return v->data[v->size - 1]; }
+static inline int vec_int_front(vec_int *v) { bl_bounds(v->size > 0); return v->data[0]; }
 static inline void vec_int_pop_back(vec_int *v) { bl_bounds(v->size > 0); v->size--; }
 static inline void vec_int_push_back(vec_int *v, int x) { bl_trap(v->size < v->cap, "capacity bound NQMAX reached"); v->data[v->size] = x; v->size++; }
 static inline void vec_QubitInfo_push_back(vec_QubitInfo *v, QubitInfo q) { bl_trap(v->size < v->cap, "capacity bound NQMAX reached"); v->data[v->size] = q; v->size++; }
